@@ -67,6 +67,16 @@ TRANSPARENT_NAMES = {
 }
 
 
+def _is_new_const(facts, item):
+    try:
+        import normalize
+        inv = normalize.inventory()
+    except Exception:
+        return False
+    known = inv.get("__consts__")
+    return known is not None and item not in known
+
+
 class Tracer:
     def __init__(self, facts, body, maxdepth=60):
         self.facts = facts
@@ -89,7 +99,16 @@ class Tracer:
                 return N("const", op["v"], op.get("ty"), op.get("item"))
             if "static" in op:
                 return N("static", op["static"], op.get("ty"), op.get("static_path"))
-            return N("constx", op.get("s"), op.get("ty"), op.get("item"))
+            item = op.get("item")
+            if item and depth < 6 and item in self.facts.by_dp and _is_new_const(self.facts, item):
+                # a named constant introduced after the pinned tree (normalize.py inventory): read through to its initialiser
+                cb = self.facts.by_dp[item]
+                ct = getattr(cb, "_const_tracer", None)
+                if ct is None:
+                    ct = Tracer(self.facts, cb)
+                    cb._const_tracer = ct
+                return ct.local(0, depth + 1)
+            return N("constx", op.get("s"), op.get("ty"), item)
         return N("unknown", k)
 
     def place(self, place, depth=0):
@@ -480,6 +499,27 @@ class Guard:
         self.kind = kind      # 'bool' | 'discr' | 'int'
 
 
+_MIRROR = {"Lt": "Gt", "Gt": "Lt", "Le": "Ge", "Ge": "Le", "Eq": "Eq", "Ne": "Ne"}
+
+
+def canon_cmp(n):
+    """One orientation for every comparison: a constant operand goes to the right; two non-constant operands are
+    ordered by their printed form.  `0 < size` and `size > 0`, `max <= count` and `count >= max` give the same node."""
+    if n.kind != "bin" or n[1] not in _MIRROR:
+        return n
+    a, b = n[2], n[3]
+    ca, cb = const_eval(a) is not None, const_eval(b) is not None
+    if ca and not cb:
+        swap = True
+    elif cb or ca:
+        swap = False
+    else:
+        swap = fmt(strip(b)) < fmt(strip(a))
+    if not swap:
+        return n
+    return N("bin", _MIRROR[n[1]], b, a)
+
+
 def guard_at(facts, body, tracer, bb):
     t = body.term(bb)
     if t["k"] != "SwitchInt":
@@ -523,6 +563,7 @@ def guard_at(facts, body, tracer, bb):
             edges.append((t["otherwise"], None))  # unreachable otherwise
         return Guard(bb, n[1], edges, "discr", n[2])
     # boolean?
+    n = canon_cmp(n)
     vals = [v for v, _ in t["targets"]]
     if vals == [0]:
         f_edge = t["targets"][0][1]
@@ -557,6 +598,11 @@ def guards_dominating(facts, body, tracer, site_bb):
 
 
 # --------------------------------------------------------------------------- P6 explorer
+
+def _is_try_branch(t):
+    c = callee(t)
+    return bool(c and c["name"] == "branch" and ("ops::Try" in c["path"] or "try_trait::Try" in c["def"]))
+
 
 class Explorer:
     """Worklist exploration of (block, const-store, automaton state).
@@ -596,6 +642,10 @@ class Explorer:
                     out.add(rv["place"]["l"])
                 elif rv["k"] == "Use" and not s["lhs"].get("p") and rv["ops"][0]["k"] in ("copy", "move") and not rv["ops"][0]["p"].get("p"):
                     copies.append((s["lhs"]["l"], rv["ops"][0]["p"]["l"]))
+        for blk in body.blocks:
+            t = blk["term"]
+            if t["k"] == "Call" and _is_try_branch(t) and t["args"] and t["args"][0].get("p") and not t["args"][0]["p"].get("p"):
+                out.add(t["args"][0]["p"]["l"])
         changed = True
         while changed:
             changed = False
@@ -738,6 +788,23 @@ class Explorer:
                 d = t["dest"]
                 if not d.get("p"):
                     store.pop(d["l"], None)
+                    # `?` on a value whose variant is known on this path (a helper inlined by normalize.py returns
+                    # Ok / Err / Some / None on distinct paths): Try::branch maps Ok|Some -> Continue, Err|None -> Break
+                    if _is_try_branch(t) and t["args"]:
+                        v = self._const_of(t["args"][0], store)
+                        if isinstance(v, tuple) and v and v[0] == "V":
+                            adt = self.facts.adts.get(v[1])
+                            nm = None
+                            if adt:
+                                for var in adt["variants"]:
+                                    if var["idx"] == v[2]:
+                                        nm = var["name"]
+                            cf = self.facts.adts.get("core::ops::control_flow::ControlFlow")
+                            if nm in ("Ok", "Some", "Err", "None") and cf:
+                                want = "Continue" if nm in ("Ok", "Some") else "Break"
+                                for var in cf["variants"]:
+                                    if var["name"] == want:
+                                        store[d["l"]] = ("V", "core::ops::control_flow::ControlFlow", var["idx"])
             if k in ("Return", "Unreachable", "UnwindResume", "CoroutineDrop") or not succs:
                 for auto in autos:
                     finals.append((st, auto, k))
@@ -805,6 +872,11 @@ class CallIndex:
                 self.callers[c.get("res") or c["dp"]].append((b, bi, t))
                 if c.get("res"):
                     self.callers[c["dp"]].append((b, bi, t))
+        # call sites replaced by an inlined copy of the callee (normalize.py): still the binding sites of its parameters
+        for (b, bi, t) in getattr(facts, "inlined_sites", []):
+            c = callee(t)
+            if c is not None:
+                self.callers[c.get("res") or c["dp"]].append((b, bi, t))
 
     def find(self, def_re=None, path_re=None, crate=None, name=None):
         rd = re.compile(def_re) if def_re else None
